@@ -229,6 +229,10 @@ def gen_spec(rng, ptype, for_schema=False):
         seen = set()
         while len(objs) < n:
             o = rng.choice([rint(rng), round(rng.uniform(-100, 100), 3) + 0.0005, rstr(rng)])
+            if objs and rng.random() < 0.2:
+                # an object that prints like another one ('0' next to 0): distinct values, equal str()
+                prev = rng.choice(objs)
+                o = str(prev) if not isinstance(prev, str) else o
             key = (type(o).__name__, o) if not isinstance(o, float) else ('n', o)
             if isinstance(o, int):
                 key = ('n', o)
